@@ -4,6 +4,7 @@
 import SV.LRU.Proofs
 import SV.GenProofs.LRU
 import SV.LRU.RefSpec
+import SV.LRU.SimpleLruLib
 namespace SV.Props.C15
 open SV SV.LRU
 
@@ -102,5 +103,27 @@ theorem reference_flags_truthful (r : Ref) (k v : Bytes) (size : Int) (h : r.WF)
     ((r.hasOrAdd k v size).2.2 = true ↔ (r.has k = false ∧ (r.hasOrAdd k v size).1.has k = true)) ∧
     ((r.hasOrAdd k v size).2.2 = false → (r.hasOrAdd k v size).1 = r) := ref_flags_truthful r k v size h
 theorem reference_bytes_is_sum (r : Ref) : r.bytes = (r.items.map (·.size)).sum := ref_bytes_is_sum r
+
+/-! ### hashicorp `simplelru` is not assumed: the library's LRU (items map + evict list, `Add`/`Get`/`Contains`/`Peek`/
+    `Remove`/`RemoveOldest`/`Keys`/`Purge`, the wrapper's `ContainsOrAdd`) transcribed in SV/LRU/SimpleLruLib.lean refines
+    the plain-LRU model and, through it, the reference specification -/
+/-- the library model under the `lruCache` wrapper produces, for every history, the trace of the reference specification -/
+theorem library_lru_refines_reference (cap : Nat) (hc : 1 ≤ cap) (ops : List LOp) :
+    SV.LRU.runTrace Lib.LRU.stepL Lib.LRU.obsL (Lib.LRU.new cap) ops
+      = SV.LRU.runTrace Ref.step Ref.obs (Ref.init cap none) ops ∧
+    (SV.LRU.runFinal Lib.LRU.stepL (Lib.LRU.new cap) ops).abs.toRef = SV.LRU.runFinal Ref.step (Ref.init cap none) ops ∧
+    Lib.Inv (SV.LRU.runFinal Lib.LRU.stepL (Lib.LRU.new cap) ops) := Lib.lib_refines_reference cap hc ops
+/-- directly on the library model: never more than `size` entries after any history -/
+theorem library_lru_never_exceeds_size (size : Nat) (hs : 0 < size) (ops : List Lib.Op) :
+    (Lib.finalState Lib.LRU.step (Lib.LRU.new size) ops).len ≤ size ∧
+    (Lib.finalState Lib.LRU.step (Lib.LRU.new size) ops).items.length ≤ size := Lib.lib_len_le_size size hs ops
+/-- directly on the library model: `Add` evicts iff the key is new and the cache is full, and then exactly the least
+    recently used entry (reported to the callback once) -/
+theorem library_lru_add_evicts_least_recent (c : Lib.LRU) (k v : Bytes) (h : Lib.Inv c) :
+    (c.add k v).2.1 = (!c.contains k && decide (c.len = c.size)) ∧
+    ((c.add k v).2.1 = false → (c.add k v).2.2 = []) ∧
+    ((c.add k v).2.1 = true → ∃ o, Lib.DL.back c.evictList = some o ∧ (c.add k v).2.2 = [(o.key, o.val)] ∧
+        c.keys.head? = some o.key ∧ (c.add k v).1.keys = c.keys.tail ++ [k] ∧
+        (c.add k v).1.contains o.key = false) := Lib.lib_add_evicts_lru c k v h
 
 end SV.Props.C15
